@@ -234,7 +234,7 @@ def execute_runs(ctx, runs, prop):
         for rj in rejected:
             hdr = rj["events"][0] if rj["events"] else {}
             sc = scnmap.get(hdr.get("scn")) or {}
-            cause = analyse(rj["events"], False)
+            cause = analyse(rj["events"], False) if prop == "C15" else "completion-on-foreign-context"
             rep.violation(dict(engine="mutex", mode=mode, event="MonitorReject", unit=rj["x"], k=hdr.get("k"), ver=sc.get("ver"),
                                sched=SCHED_NAME.get(sc.get("sched")), cause=cause, scenario=sc,
                                what="MutexMon (" + prop + " rules) rejects an execution recorded in %s mode at event %s of %s (v%s async_mutex, scenario %s, "
@@ -258,12 +258,15 @@ def execute_runs(ctx, runs, prop):
 def run_c15(ctx):
     rep = ctx.rep
     quick = ctx.quick
-    rep.assume("sequentially consistent interleavings at schedule-point granularity (x86-TSO hardware); the need for the "
-               "two seq_cst Dekker fences of v2::async_mutex is not examined")
+    rep.assume("sequentially consistent interleavings at schedule-point granularity (x86-TSO hardware); the need for the two "
+               "seq_cst Dekker fences of v2::async_mutex is shown only at design level (sync/MutexV2Tso, thorough tier), "
+               "it is not bound to the code")
     rep.assume("<= 3 threads, <= 6 lock attempts per scenario; every owner unlocks; receivers complete on a scheduler that "
                "completes inline ('plain': never cancels; 'unifex::inline_scheduler': honours the receiver's stop token)")
-    rep.assume("MutexV2 uses an abstract atomic waiter list; prim/AtomicIntrusiveList is model-checked separately "
-               "(no mechanical refinement proof between the two)")
+    rep.assume("list layer: TLC checks the refinement prim/AtomicIntrusiveList (single atomic accesses) => prim/AbstractList "
+               "(two-phase insert/obtain list) for bounded programs (3 threads, 3 items, push_back/pop_front/try_remove/empty and "
+               "the latch operations); MutexV2 is model-checked both over an atomic sequence (the granularity replayed on the code) "
+               "and over that abstract list (TwoPhase)")
     main, inline = gen_scenarios(ctx.tier)
     sp = os.path.join(ctx.work, "scenarios.json")
     json.dump(main, open(sp, "w"))
@@ -276,6 +279,8 @@ def run_c15(ctx):
     # scenarios whose transitions are exported for guided replay (export is single-threaded)
     exp2 = [s for s in v2 if s["name"] in (("B", "G") if quick else ("A", "B", "C", "G", "H", "I", "J", "K", "Lq", "M"))]
     f2e = os.path.join(ctx.work, "scn_v2e.json"); json.dump(exp2, open(f2e, "w"))
+    tp2 = [s for s in v2 if quick and s["name"] in ("B", "G", "J") or not quick and s["name"] not in ("E", "E2", "P")]
+    ftp = os.path.join(ctx.work, "scn_v2tp.json"); json.dump(tp2, open(ftp, "w"))
     live1 = [s for s in v1 if s["name"] in (("A", "B") if quick else ("A", "B", "C", "D", "F"))]
     live2 = [s for s in v2 if s["name"] in (("G",) if quick else ("B", "G", "J", "K"))]
     fl1 = os.path.join(ctx.work, "scn_l1.json"); json.dump(live1, open(fl1, "w"))
@@ -295,7 +300,11 @@ def run_c15(ctx):
         ("live1", lambda: vlib.model_check(ctx, "sync", "MutexV1Live", cfg="MutexV1Live.cfg", env={"SCENARIOS": fl1}, workers=1, timeout=1500)),
         ("live2", lambda: vlib.model_check(ctx, "sync", "MutexV2Live", cfg="MutexV2Live.cfg", env={"SCENARIOS": fl2}, workers=1 if quick else 2, timeout=2400)),
         ("queue", lambda: vlib.model_check(ctx, "prim", "AtomicIntrusiveQueueMC", workers=1, timeout=600)),
-        ("list", lambda: vlib.model_check(ctx, "prim", "AtomicIntrusiveListMC", cfg=listcfg, workers=1, timeout=1500)),
+        # MutexV2 over the abstract list that the real list is shown to refine (two-phase insert / obtain, weak empty())
+        ("v2tp", lambda: vlib.model_check(ctx, "sync", "MutexV2MC", cfg="MutexV2TwoPhase.cfg", env={"SCENARIOS": ftp, "EDGES": ""},
+                                          workers=1 if quick else 3, timeout=3000)),
+        # list protocol invariants + PROPERTY Refines (AtomicIntrusiveList => AbstractList)
+        ("list", lambda: vlib.model_check(ctx, "prim", "AtomicIntrusiveListMC", cfg=listcfg, workers=1 if quick else 3, timeout=3000)),
         # design-level results that are not C15 alarms by themselves
         ("kill", lambda: vlib.model_check(ctx, "prim", "AtomicIntrusiveListMC", cfg="AtomicIntrusiveListKill.cfg", must_hold=False, workers=1, timeout=600)),
         ("inline", lambda: vlib.model_check(ctx, "sync", "MutexV2MC", cfg="MutexV2Inline.cfg", env={"SCENARIOS": spi, "EDGES": ""}, must_hold=False, workers=1, timeout=900)),
@@ -313,6 +322,17 @@ def run_c15(ctx):
             vlib.model_check(ctx, "sync", "MutexV2MC", env={"SCENARIOS": f2, "EDGES": ""}, workers=2 if quick else None, timeout=3000)
         for k, fu in futs.items():
             res[k] = fu.result()      # re-raises vlib.Broken
+    if not quick and not os.environ.get("MUTEX_DEV_SKIP_MC"):
+        # store-buffer variant of the Dekker core (design-level result; see the header of sync/MutexV2Tso.tla)
+        for cfg, expect in (("MutexV2Tso.cfg", "ok"), ("MutexV2TsoNoStartFence.cfg", "ok"), ("MutexV2TsoWeak.cfg", "ok"),
+                            ("MutexV2TsoR2.cfg", "ok"), ("MutexV2TsoNoUnlockFence.cfg", "deadlock"),
+                            ("MutexV2TsoWeakNoStartFence.cfg", "deadlock")):
+            rt = vlib.model_check(ctx, "sync", "MutexV2Tso", cfg=cfg, must_hold=(expect == "ok"), workers=2, timeout=600)
+            if rt["kind"] != expect:
+                rep.note("MutexV2Tso %s: expected %s, TLC reports %s (design-level model out of date?)" % (cfg, expect, rt["kind"]))
+        rep.note("store-buffer variant (sync/MutexV2Tso): both fences -> no lost wake-up under TSO and under a non-draining RMW; "
+                 "without the process_queue() fence a wake-up is lost already on TSO; without the start() fence it is lost "
+                 "when the exchange is not a full barrier (on x86-TSO the locked exchange makes that fence redundant)")
     r = res.get("kill") or {"kind": "skipped"}
     if r["kind"] == "invariant":
         rep.oos.append(dict(kind="tlc", module="prim/AtomicIntrusiveList", violated=r["violated"],
